@@ -20,13 +20,18 @@ def gen_files(ctx):
     d = os.path.join(ctx.work, "files")
     os.makedirs(d, exist_ok=True)
     files = []
-    for k in range(12 if ctx.tier == "quick" else 150):
+    for k in range(30 if ctx.tier == "quick" else 300):
         vars_ = vcdgen.gen_vars(rng, nvars=rng.choice([2, 4, 7]), style=rng.choice(["dense", "long"]))
         vars_ = [(i, t if not t.startswith("b") or int(t[1:]) <= 130 else "b33") for i, t in vars_]
         body = vcdgen.gen_body(rng, vars_, nsteps=rng.choice([2, 6, 12]), line_disciplined=True, first_line=b"")
-        hdr = b"$date today $end\n$version v1 $end\n$comment hello $end\n$timescale 10 ps $end\n$scope module top $end\n"
+        # every timescale unit incl. unknown ones (`1`, `10 NS`, `1 sec`) and no timescale at all; all scope keywords
+        ts = rng.choice(["$timescale 10 ps $end\n", "$timescale 1fs $end\n", "$timescale 100 ns $end\n", "$timescale 1 us $end\n", "$timescale 10ms $end\n",
+                         "$timescale 1 s $end\n", "$timescale 1 $end\n", "$timescale 10 NS $end\n", "$timescale 1 sec $end\n", ""])
+        skw = rng.choice(["module", "task", "function", "begin", "fork", "generate", "struct", "union", "class", "interface", "package", "program",
+                          "vhdl_architecture", "vhdl_record", "vhdl_block", "vhdl_if_generate"])
+        hdr = (rng.choice(["$date today $end\n", ""]) + rng.choice(["$version v1 $end\n", ""]) + "$comment hello $end\n" + ts + f"$scope {skw} top $end\n").encode()
         for i, (idb, t) in enumerate(vars_):
-            kw, w = ("real", "64") if t == "r" else (("string", "1") if t == "s" else (rng.choice(["wire", "reg", "integer"]), t[1:]))
+            kw, w = ("real", "64") if t == "r" else (("string", "1") if t == "s" else (rng.choice(["wire", "reg", "integer", "logic", "bit", "tri", "wand", "supply0", "time", "parameter", "event", "port"]), t[1:]))
             idx = rng.choice(["", " [3:0]", "[-4:-1]", " [5]", "[0:0]", " [-1]", "[7:0][2:1]", ""])
             hdr += f"$var {kw} {w} ".encode() + idb + f" v{i}{idx} $end\n".encode()
             if i == 1:
